@@ -266,6 +266,9 @@ func runC09(c *Ctx) {
 			"a priority rollback can run after the expired-log replay in the same pass: the replay clears the staged deleted marks and removes the transaction log, then the priority rollback re-applies the staged handles and removes the priority log - nothing is left to clear the marks, and every later writer that has to remove one of those nodes fails phase 1")
 	}
 
+	r8 := c.Rule("R8", "the window between writing the store counts and logging the next step is covered by recovery (shared with C06.R8)", 2)
+	storeCountWindowRule(c, r8)
+
 	r6 := c.Rule("R6", "the count delta the replay has to subtract survives the log encoding (shared with C06.R7)", 3)
 	replayDeltaRule(c, r6)
 
